@@ -13,7 +13,13 @@ ADVERSARIAL = ["with space", " lead", "trail ", "tab\there", "new\nline", "quo't
 SYNTAX_NAMES = ["a\\b", "\\", "x\\y\\z", "a,b", ",", "c,d,e", "a:b", "a;b", "..a", "a..", "a b", "a=b", "a|b", "[x] y", "%2F", "a\tb", "~", "-", "*", "{}"]
 
 
-def rand_name(rng, adversarial=0.15, syntax=False):
+NONUTF8 = ["\udcfe", "\udcff", "\udc80", "x\udcfe", "x\udcff", "\udcfe.txt", "\udcff.txt"]
+
+
+def rand_name(rng, adversarial=0.15, syntax=False, nonutf8=0.0):
+    if nonutf8 and rng.random() < nonutf8:
+        # file names are byte strings: invalid UTF-8 is legal (carried as surrogate escapes in the world spec)
+        return rng.choice(NONUTF8)
     if rng.random() < adversarial:
         if syntax and rng.random() < 0.6:
             return rng.choice(SYNTAX_NAMES) + rng.choice(["", "", "1", ".txt"])
@@ -29,7 +35,7 @@ def rand_name(rng, adversarial=0.15, syntax=False):
 DEFAULT_KINDS = {"file": 10, "dir": 5, "symlink": 1.5, "fifo": 0.4, "sock": 0.3, "empty_dir": 0}
 
 
-def gen_tree(rng, roots, max_entries=30, max_depth=4, kinds=None, adversarial=0.15, contents=None, symlink_targets=None):
+def gen_tree(rng, roots, max_entries=30, max_depth=4, kinds=None, adversarial=0.15, contents=None, symlink_targets=None, nonutf8=0.0):
     """Random tree below each of `roots` (top-level directory names). Returns {"nodes": [...]} parents first."""
     kinds = dict(DEFAULT_KINDS if kinds is None else kinds)
     nodes = []
@@ -50,7 +56,7 @@ def gen_tree(rng, roots, max_entries=30, max_depth=4, kinds=None, adversarial=0.
             parent, lvl = rng.choice(dirs)
         t = rng.choices([k for k, _ in kk], [w for _, w in kk])[0]
         # directories get adversarial (path-syntax-like) names more often: they are what paths are built from
-        name = rand_name(rng, min(0.7, adversarial * 2.5), syntax=True) if t == "dir" else rand_name(rng, adversarial, syntax=rng.random() < 0.3)
+        name = rand_name(rng, min(0.7, adversarial * 2.5), syntax=True, nonutf8=nonutf8) if t == "dir" else rand_name(rng, adversarial, syntax=rng.random() < 0.3, nonutf8=nonutf8)
         if name in used[parent] or name in (".", ".."):
             continue
         used[parent].add(name)
